@@ -743,6 +743,22 @@ def purity(seed, n):
                     if type(v.pose) is type(w.pose):
                         val += [np.array(v.pose + w.pose).tobytes(), np.array(v.pose - w.pose).tobytes()]
                         val += [np.asarray(v.pose.jacobian_self_oplus_other_wrt_self(w.pose)).tobytes()]
+                    # pose [+] increment and += with a caller-owned increment array (also a view into a larger step vector, also a rotation
+                    # increment of norm > 1): the operator must not write into its right operand
+                    dim_c = v.pose.COMPACT_DIMENSIONALITY
+                    big_step = np.array([rng.gauss(0, 0.3) for _ in range(dim_c + 4)])
+                    d_inc = big_step[2:2 + dim_c]
+                    if isinstance(v.pose, PoseSE3) and rng.random() < 0.5:
+                        d_inc[3:] = np.array([0.8, -0.7, 0.6]) * rng.choice([1.0, 1.5])
+                    keep = big_step.copy()
+                    r1 = v.pose + d_inc
+                    tmp_pose = v.pose.copy()
+                    tmp_pose += d_inc
+                    if big_step.tobytes() != keep.tobytes():
+                        fails.append({'law': 'pose [+] increment wrote into its right operand: the caller\'s increment array changed from %s to %s'
+                                             % (keep[2:2 + dim_c].tolist(), d_inc.tolist()), 'seed': seed, 'case': i, 'kind': kind, 'pose': np.array(v.pose).tolist(), 'edge': 'graph'})
+                        ok = False
+                        break
                     q = 'pose_ops_%d_%d' % (g._vertices.index(v), g._vertices.index(w))
                 elif q == 'copy':
                     v = rng.choice(g._vertices)
@@ -782,11 +798,24 @@ def purity(seed, n):
             continue
         # optimize(): only vertex poses (and the first vertex's fixed flag) may change
         ffp = rng.random() < 0.5
+        lonely = rng.random() < 0.25
+        if lonely:
+            # a vertex no edge refers to (an unobserved landmark): whatever that does to the solve, optimize() may only touch vertex poses
+            extra_v = Vertex(10 ** 7 + i, g._vertices[-1].pose.copy())
+            es_l = list(g._edges)
+            for e in es_l:
+                e.vertices = None
+            g = Graph(es_l, list(g._vertices) + [extra_v])
         edge_part0 = [s for s in snapshot(g) if s[0] == 'e']
         fixed0 = [s for s in snapshot(g) if s[0] == 'v' and s[2]]
         flags0 = [bool(v.fixed) for v in g._vertices]
         try:
-            g.optimize(tol=1e-9, max_iter=rng.randint(1, 4), fix_first_pose=ffp, verbose=False)
+            with warnings.catch_warnings():
+                warnings.simplefilter('ignore')
+                if lonely:
+                    g.optimize(tol=rng.choice([1e-4, 1e-8]), max_iter=20, fix_first_pose=ffp, verbose=False)
+                else:
+                    g.optimize(tol=1e-9, max_iter=rng.randint(1, 4), fix_first_pose=ffp, verbose=False)
         except Exception as ex:  # noqa
             continue
         evals += 1
